@@ -145,6 +145,19 @@ pub fn run(run: &Run) {
     }));
     huge_section(run, false, &profs, &|p, s, l| check(run, p, s, l));
     concurrent_distinct(run, &profs, &concurrent_unit, &|p, s, l| check(run, p, s, l));
+    pointer_offset_sweep(run, &["\u{ff21}", "A", "e\u{301}", "\u{3a3}", "\u{130}", "\u{ff76}\u{ff9e}", "\u{3000}", "l\u{b7}l", "\u{200d}", "\u{5d0}1"], &|s, l| {
+        for p in profs {
+            check(run, p, s, l)?;
+        }
+        Ok(())
+    });
+    battery(run, "respelled_middle_dot", &respelled_middle_dot_strings(), &|s, l| profs.iter().all(|p| match check(run, *p, s, l) {
+        Ok(()) => true,
+        Err(v) => {
+            run.violate(v);
+            false
+        }
+    }));
     collisions(run, "fingerprint_collisions", &|s, l| profs.iter().all(|p| match check(run, *p, s, l) {
         Ok(()) => true,
         Err(v) => {
